@@ -29,7 +29,8 @@ ID = "C07"
 
 # MCDesignDie*: MaxDie = 1 (one sharer may die inside a section; pinned tree: it keeps its locks for ever);
 # MCDesignDieRestore: Close() restores and releases -- a different design that preserves the property as well
-DESIGN_QUICK = ["MCDesignA", "MCDesignB", "MCDesignDieA"]
+# (the states of MCDesignDieA in which nobody has died are exactly the state space of MCDesignA: quick runs the superset)
+DESIGN_QUICK = ["MCDesignDieA", "MCDesignB"]
 DESIGN_THOROUGH = ["MCDesignA", "MCDesignB", "MCDesignDieA", "MCDesignE", "MCDesignD", "MCDesignC", "MCDesignDieE",
                    "MCDesignDieB", "MCDesignDieRestore"]
 MUTANTS = [("MCMutNoTimeout", "Deadlock"), ("MCMutReleaseEarly", "Serializable"),
@@ -294,6 +295,16 @@ def stress_case(cid, rng, bank, die=False):
 # --------------------------------------------------------------------------- the check
 
 def run(chk):
+    # every TLC job and the driver build start at once; the generator graphs are awaited first, the design-level runs and
+    # the vacuity guards are collected at the end (they do not depend on the code under test). Nothing is left running.
+    ex = concurrent.futures.ThreadPoolExecutor(max_workers=32)
+    try:
+        return _run(chk, ex)
+    finally:
+        ex.shutdown(wait=True)
+
+
+def _run(chk, ex):
     quick = chk.quick()
     rng = random.Random(chk.seed * 7919 + 7)
     phase, t_phase = {}, [time.time()]
@@ -326,27 +337,33 @@ def run(chk):
                           timeout=3000 if kind == "design" else 900, deadlock=True,
                           jvm=JVM if quick or kind == "mut" else None), d
 
-    results = {}
-    with concurrent.futures.ThreadPoolExecutor(max_workers=len(jobs)) as ex:
-        for job, res, d in ex.map(tlc_job, jobs):
-            results[job] = (res, d)
-    all_ok = True
-    for c in design:
-        res, _ = results[("design", c)]
-        chk.add_tlc("%s exhaustive: timed 2PL => Serializable, QuiescentAgree, NoLeak, NoIndefiniteBlock, no deadlock" % c, res)
-        all_ok = all_ok and res.ok
-    chk.exhaustive = all_ok
-    expected = dict(mutants)
-    for c, _ in mutants:
-        res, _ = results[("mut", c)]
-        chk.tlc_jobs.append(res.summary("%s (vacuity guard: broken design must violate %s)" % (c, expected[c])))
-        if res.timed_out or res.error:
-            chk.inconclusive.append("vacuity guard %s did not run: %s" % (c, res.error or "timeout"))
-        elif not (res.violation and expected[c] in res.violation):
-            chk.inconclusive.append("vacuity guard %s: the broken design was not rejected by %s (%s)" % (c, expected[c], res.violation))
-    chk.notes["vacuity_guards_rejected"] = [c for c, _ in mutants if results[("mut", c)][0].violation]
+    jobs.sort(key=lambda j: j[0] != "gen")          # the generator graphs are needed first
+    futures = {job: ex.submit(tlc_job, job) for job in jobs}
+    build = ex.submit(V.build_driver, "c07drv", chk.bindir)
 
-    lap("tlc_design_mutants_generators")
+    class Results:
+        def __getitem__(self, job):
+            _, res, d = futures[job].result()
+            return res, d
+    results = Results()
+
+    def account_models():
+        all_ok = True
+        for c in design:
+            res, _ = results[("design", c)]
+            chk.add_tlc("%s exhaustive: timed 2PL => Serializable, QuiescentAgree, NoLeak, NoIndefiniteBlock, no deadlock" % c, res)
+            all_ok = all_ok and res.ok
+        chk.exhaustive = all_ok
+        expected = dict(mutants)
+        for c, _ in mutants:
+            res, _ = results[("mut", c)]
+            chk.tlc_jobs.append(res.summary("%s (vacuity guard: broken design must violate %s)" % (c, expected[c])))
+            if res.timed_out or res.error:
+                chk.inconclusive.append("vacuity guard %s did not run: %s" % (c, res.error or "timeout"))
+            elif not (res.violation and expected[c] in res.violation):
+                chk.inconclusive.append("vacuity guard %s: the broken design was not rejected by %s (%s)" % (c, expected[c], res.violation))
+        chk.notes["vacuity_guards_rejected"] = [c for c, _ in mutants if results[("mut", c)][0].violation]
+
     # ---- 2. cases
     cases = []
     cover_note = {}
@@ -410,10 +427,10 @@ def run(chk):
     chk.notes["generator_cover"] = cover_note
     by_id = {c["id"]: c for c in cases}
 
-    lap("walks")
+    lap("generator_graphs_and_walks")
     # ---- 3. the real code
-    drv = V.build_driver("c07drv", chk.bindir)
-    lap("build_driver")
+    drv = build.result()
+    lap("build_driver_wait")
     gated = [c for c in cases if c["mode"] == "gated"]
     stress = [c for c in cases if c["mode"] == "stress"]
     hist, trace, events = [], [], []
@@ -480,6 +497,9 @@ def run(chk):
 
     # ---- 5. P-level verdicts: TLC searches a strict serialization of every recorded case
     segs = V.split_cases(hist)
+    # a chunk gives up after max_rounds rejections: the few hand-written and free-running cases with a death go first,
+    # so that a defect of that family is reported with every kind of history it spoils, not just the most numerous one
+    segs.sort(key=lambda sg: 0 if str(sg[0].get("id")).startswith("die-") else 1 if "-die" in str(sg[0].get("fam")) else 2)
     chunks = 4 if quick else 12
     obs = V.fold_traces(work, "TxnSer", "TxnSer.cfg", segs, timeout=3000, tracefile="hist.ndjson", chunks=chunks,
                         max_rounds=4, jvm=JVM if quick else None)
@@ -501,7 +521,7 @@ def run(chk):
                     "%d of the %d items of case %s" % (max(r["line_in_seg"] - 1, 0), h.get("n"), h.get("id")))
             if h.get("dead"):
                 what += (" (sharer %s died inside a section in this case: its section never committed and is not among the items)"
-                         % h.get("dead"))
+                         % ", ".join(map(str, h.get("dead"))))
         else:
             inv = ("SoloProgress" if "SoloProgress" in r["text"] else "SumPreserved" if "SumPreserved" in r["text"]
                    else "NoDirtyRead" if "NoDirtyRead" in r["text"] else "invariant")
@@ -513,9 +533,9 @@ def run(chk):
                 dw = {(w["c"], w["v"]) for w in h.get("deadw", [])}
                 item = next((it for it in seg[1:] if any(o["k"] == "r" and (o["c"], o["v"]) in dw for o in it.get("ops", []))), None)
                 what += (" -- dirty read: a committed section of a surviving sharer (or GetState()) returned a value written by the "
-                         "section of sharer %s, which ended in a fatal error and never committed" % h.get("dead"))
+                         "section of sharer %s, which ended in a fatal error and never committed" % ", ".join(map(str, h.get("dead", []))))
             if h.get("dead") and inv in ("SumPreserved", "invariant"):
-                what += " (sharer %s died inside a section in this case)" % h.get("dead")
+                what += " (sharer %s died inside a section in this case)" % ", ".join(map(str, h.get("dead")))
         report("C07:%s:mode=%s:fam=%s" % (inv, h.get("mode"), h.get("fam")),
                what, {"input": c, "history": seg, "line_in_seg": r["line_in_seg"], "tlc": r["text"], "item": item})
     if per_key:
@@ -526,6 +546,8 @@ def run(chk):
     mt = V.fold_traces(work, "LocalSharedTrace", "LocalSharedTrace.cfg", tsegs, timeout=3000, chunks=chunks, max_rounds=4,
                        jvm=JVM if quick else None)
     lap("m_level_fold")
+    account_models()
+    lap("design_and_guards_wait")
     chk.notes["phase_wall_s"] = phase
     chk.states += mt["states"]
     chk.transitions += mt["transitions"]
